@@ -1,0 +1,11 @@
+package server
+
+// Verification hook points. The functions verifHook / verifYield are no-ops unless the package is
+// built with the "verif" build tag (see verif_on.go / verif_off.go).
+const (
+	verifPointNoCheckLoop = 1 // LockDB.startCheckLoop: return true to run the DB without its wall-clock sweep goroutines
+	verifPointBeforeLock  = 2 // PriorityMutex: about to take the shard mutex
+	verifPointAfterUnlock = 3 // PriorityMutex: shard mutex just released
+	verifPointAofFlushMid = 4 // AofFile.Flush: records written, values not yet
+	verifPointAofRewrite  = 5 // Aof rewrite: after each file-system mutation (5, 6, 7 ... see call sites)
+)
